@@ -212,6 +212,9 @@ type State struct {
 	frameCheck      func(ex *Exec, st *State, in ssa.Instruction, a *Term)
 	frameCheckRange func(ex *Exec, st *State, in ssa.Instruction, dst *SliceV, n *Term)
 	wantPrune       bool
+	callLog         map[string][]TV // results of calls made on this path, by short callee name
+	hashSeq         map[int64][]Seg // ghost message of hash objects (by region id)
+	regionSeq       map[int64][]Seg // content of locally built byte regions as segments
 }
 
 func (st *State) Clone() *State {
@@ -223,6 +226,12 @@ func (st *State) Clone() *State {
 	n.mapKeys = map[int64][]*Term{}
 	for k, v := range st.mapKeys {
 		n.mapKeys[k] = append([]*Term{}, v...)
+	}
+	if st.callLog != nil {
+		n.callLog = make(map[string][]TV, len(st.callLog))
+		for k, v := range st.callLog {
+			n.callLog[k] = append([]TV{}, v...)
+		}
 	}
 	return &n
 }
@@ -258,6 +267,15 @@ func (st *State) noteLoadedAddr(v *Term) {
 }
 
 func (st *State) storeScalar(s Sort, a, v *Term) {
+	if s == BV(8) && len(st.regionSeq) > 0 {
+		if r := Rg(a); r.IsConst() {
+			if _, tracked := st.regionSeq[r.Val.Int64()]; tracked {
+				st.setRegionSeq(r.Val.Int64(), nil)
+			}
+		} else {
+			st.regionSeq = nil
+		}
+	}
 	arr := st.mem.arr(s, st.memGen)
 	st.mem.arrs[s] = Store(arr, a, v)
 }
@@ -434,14 +452,15 @@ func (st *State) SymValue(t types.Type, name string, ub int64) Value {
 	panic("SymValue: unsupported " + t.String())
 }
 
-var maxObj = BVConst(mask(62), 64) // 2^62-1
+var maxObj = BVConst(mask(62), 64)   // 2^62-1: no allocation is larger
+var maxInput = BVConst(mask(61), 64) // 2^61-1: slices that exist at function entry
 
 // validSlice: 0 <= len <= cap, off+cap does not overflow (all < 2^62), nil base => empty
 func validSlice(s *SliceV) *Term {
 	return And(
 		BVCmp("bvule", s.Len, s.Cap),
-		BVCmp("bvule", s.Cap, maxObj),
-		BVCmp("bvule", s.Off, maxObj),
+		BVCmp("bvule", s.Cap, maxInput),
+		BVCmp("bvule", s.Off, maxInput),
 		Implies(Eq(Rg(s.Base), IntConst(0)), And(Eq(s.Cap, BVc(0, 64)), Eq(s.Off, BVc(0, 64)))),
 	)
 }
